@@ -142,7 +142,18 @@ struct FnSpec {
 }
 
 /// One resource per function (touched only there): covers every choice of "the function that touches it".
-fn build_graph_program(entries: &[Stage], k: usize, dag_mask: usize, entry_calls: &[usize], form: CallForm, kinds_offset: usize, key: String) -> Prog {
+/// Which functions touch which resource.
+#[derive(Clone, Copy, Debug, PartialEq, Eq)]
+pub enum Touch {
+    /// every function touches its own resource (covers every choice of "the" toucher)
+    Own,
+    /// every helper touches one shared resource (walks that add nothing new to the table)
+    SharedAll,
+    /// only helpers without callees touch the shared resource; the others touch nothing
+    SharedLeaves,
+}
+
+fn build_graph_program(entries: &[Stage], k: usize, dag_mask: usize, entry_calls: &[usize], form: CallForm, kinds_offset: usize, touch_mode: Touch, descending: bool, key: String) -> Prog {
     // helpers h0..h{k-1}; forward edges (i<j) numbered lexicographically
     let mut fns: Vec<FnSpec> = vec![];
     let mut edge = 0;
@@ -188,17 +199,39 @@ fn build_graph_program(entries: &[Stage], k: usize, dag_mask: usize, entry_calls
     let mut expect = vec![];
     let mut binding = 0u32;
     let mut touch = vec![];
-    for i in 0..nf {
-        let kind = ResKind::BINDABLE[(i + kinds_offset) % ResKind::BINDABLE.len()];
-        let name = format!("r{i}");
-        let (d, vars) = kind.decl(&name, 0, binding);
-        decls.push_str(&d);
-        for (vn, b) in vars {
-            expect.push((vn, 0, b, stages[i]));
+    if touch_mode == Touch::Own {
+        for i in 0..nf {
+            let kind = ResKind::BINDABLE[(i + kinds_offset) % ResKind::BINDABLE.len()];
+            let name = format!("r{i}");
+            let (d, vars) = kind.decl(&name, 0, binding);
+            decls.push_str(&d);
+            for (vn, b) in vars {
+                expect.push((vn, 0, b, stages[i]));
+            }
+            binding += kind.slots();
+            let acc = kind.accesses(&name, i);
+            touch.push(acc[(i + kinds_offset) % acc.len()].1.full.clone());
         }
+    } else {
+        let kind = ResKind::BINDABLE[kinds_offset % ResKind::BINDABLE.len()];
+        let (d, vars) = kind.decl("shared_res", 0, binding);
+        decls.push_str(&d);
         binding += kind.slots();
-        let acc = kind.accesses(&name, i);
-        touch.push(acc[(i + kinds_offset) % acc.len()].1.full.clone());
+        let acc = kind.accesses("shared_res", 0);
+        let mut st = ShaderStages::NONE;
+        for i in 0..nf {
+            let toucher = fns[i].stage.is_none() && (touch_mode == Touch::SharedAll || fns[i].calls.is_empty());
+            if toucher {
+                st |= stages[i];
+                // uid-dependent local names: one access form without locals is enough here
+                touch.push(acc[0].1.full.replace("0 =", &format!("{i} =")));
+            } else {
+                touch.push(String::new());
+            }
+        }
+        for (vn, b) in vars {
+            expect.push((vn, 0, b, st));
+        }
     }
     // one more resource nobody touches
     let (d, vars) = ResKind::Uniform.decl("untouched", 0, binding);
@@ -210,8 +243,12 @@ fn build_graph_program(entries: &[Stage], k: usize, dag_mask: usize, entry_calls
     // helpers must be declared in any order in WGSL; print callee-last for readability
     for i in (0..nf).rev() {
         let f = &fns[i];
-        let mut body = indent(&touch[i]);
-        for (ci, c) in f.calls.iter().enumerate() {
+        let mut body = if touch[i].is_empty() { String::new() } else { indent(&touch[i]) };
+        let mut order: Vec<usize> = f.calls.clone();
+        if descending {
+            order.reverse();
+        }
+        for (ci, c) in order.iter().enumerate() {
             body.push_str(&indent(&form.stmt(&fns[*c].name, i * 10 + ci).full));
         }
         match f.stage {
@@ -230,17 +267,23 @@ fn entry_sets(thorough: bool) -> Vec<Vec<Stage>> {
     v.push(vec![V, V]);
     v.push(vec![F, F]);
     v.push(vec![C, C]);
+    // same-stage entries followed by another stage (state carried from one entry's walk to the next)
+    v.push(vec![C, C, F]);
+    v.push(vec![V, V, F]);
     if thorough {
-        v.push(vec![V, V, F]);
         v.push(vec![C, F, C]);
         v.push(vec![F, V, F, C]);
+        v.push(vec![F, F, V]);
     }
     v
 }
 
 pub fn space_a(thorough: bool) -> Vec<Prog> {
+    space_a_k(thorough, 3)
+}
+
+pub fn space_a_k(thorough: bool, max_k: usize) -> Vec<Prog> {
     let mut out = vec![];
-    let max_k: usize = 3;
     let forms: &[CallForm] = if thorough { &CallForm::ALL } else { &CallForm::BASIC };
     let _ = thorough;
     for entries in entry_sets(thorough) {
@@ -261,7 +304,18 @@ pub fn space_a(thorough: bool) -> Vec<Prog> {
                             calls.iter().map(|c| c.to_string()).collect::<Vec<_>>().join(".")
                         );
                         let off = (dag + calls.iter().sum::<usize>()) % 8;
-                        out.push(build_graph_program(&entries, k, dag, &calls, *form, off, key));
+                        out.push(build_graph_program(&entries, k, dag, &calls, *form, off, Touch::Own, false, key.clone()));
+                        // the order in which a function calls its callees (callee-of-callee reached first or last)
+                        let multi_call = calls.iter().any(|c| c.count_ones() >= 2) || (0..n_edges).filter(|e| dag & (1 << e) != 0).count() >= 2;
+                        if multi_call && matches!(form, CallForm::Stmt | CallForm::Let) {
+                            out.push(build_graph_program(&entries, k, dag, &calls, *form, off, Touch::Own, true, format!("{key}|order=desc")));
+                        }
+                        // shared-resource variants: statement and let forms only (the forms do not interact with sharing)
+                        if k >= 1 && matches!(form, CallForm::Stmt | CallForm::Let) {
+                            for tm in [Touch::SharedAll, Touch::SharedLeaves] {
+                                out.push(build_graph_program(&entries, k, dag, &calls, *form, off, tm, false, format!("{key}|touch={tm:?}")));
+                            }
+                        }
                     }
                 }
             }
